@@ -674,6 +674,26 @@ func checkWaitSI(c *Check) {
 			})
 		}, func(t *Term) bool { return t.IsField("AsyncAllowedLag") }))
 		c.Gate(afa, rs.At, nthKey("async:delay-read", i+1), "the delay was computed without error", p.NilErr("(*mysql.Node).CalcReplMonTSDelay"))
+		c.Gate(afa, rs.At, nthKey("async:timestamp-read", i+1), "the master's published timestamp was read without error", p.NilErr("(*app.App).GetReplMonTS"))
+		c.Gate(afa, rs.At, nthKey("async:timestamp-present", i+1), "… and is not empty: the reading wrapper answers (\"\", nil) for a key that does not exist, the delay query turns '' into 0 and the 'delay' becomes hugely negative — an unmeasured lag must not open the hatch", func(l Lit) bool {
+			isTS := func(t *Term) bool {
+				r := ResultOf(t, 0)
+				return r != nil && p.IsCall(r, "(*app.App).GetReplMonTS")
+			}
+			a, b, op, ok := Cmp(l)
+			if ok && op == "!=" && ((isTS(a) && b.IsConst("")) || (isTS(b) && a.IsConst(""))) {
+				return true
+			}
+			// len(ts) > 0 / 0 < len(ts)
+			if ok && (op == "<" || op == "!=") {
+				for _, pr := range [][2]*Term{{a, b}, {b, a}} {
+					if pr[0].IsConst("0") && pr[1].Op == "len" && len(pr[1].Args) == 1 && isTS(pr[1].Args[0]) {
+						return true
+					}
+				}
+			}
+			return false
+		})
 	}
 	c.Req(len(asites) > 0, an, "-", "async:has-true", "the escape hatch exists", "")
 }
